@@ -21,9 +21,9 @@ RULE = (
 )
 ASSUMPTIONS = [
     "GeneratedCodeOrigin is a code origin for the purpose of '+' (it subclasses CodeOrigin)",
-    "points with equal index but different line/column are inconsistent inputs and are not generated",
+    "points with equal index but different line/column are compared like any others: by index only",
 ]
-MUST_SEE = ["grid_pairs", "grid_triples", "illformed_rejected", "hull_merges", "multi_results", "multi_operands", "sourceset_results", "get_raw_checked", "nested_range_pairs", "equal_but_distinct_sources"]
+MUST_SEE = ["grid_pairs", "grid_triples", "illformed_rejected", "hull_merges", "multi_results", "multi_operands", "sourceset_results", "get_raw_checked", "nested_range_pairs", "equal_but_distinct_sources", "same_index_other_linecol"]
 CONFIG = {
     "quick": {"shards": 16, "tuples": 15000, "watchdog_s": 300},
     "thorough": {"shards": 32, "tuples": 40000, "watchdog_s": 3000},
@@ -52,6 +52,20 @@ def grid_checks(ctx):
                 bad("codepoint-order", "CodePoint comparison differs from index order", i=i, j=j)
             if min(a, b) is not (a if i <= j else b) or max(b, a) is not (b if j >= i else a):
                 bad("codepoint-order", "min/max of code points wrong", i=i, j=j)
+    # "ordered by index": line and column never take part in the order, also when two points
+    # spell one index differently (end of a line vs. start of the next one)
+    alt = [CodePoint(i, l, c) for i in (0, 3, 6) for l, c in ((1, i), (2, 0), (5, 9))]
+    for a in alt + pts:
+        for b in alt + pts:
+            ctx.evaluations += 1
+            ctx.count("same_index_other_linecol")
+            if (a < b) != (a.index < b.index) or (a <= b) != (a.index <= b.index) or (a > b) != (a.index > b.index) or (a >= b) != (a.index >= b.index):
+                bad("codepoint-order", "CodePoint order is not the index order", a=(a.index, a.line, a.column), b=(b.index, b.line, b.column))
+    for i in (0, 3):
+        x = CodeRange(CodePoint(i, 1, i), CodePoint(i + 3, 1, i + 3))
+        y = CodeRange(CodePoint(i + 3, 2, 0), CodePoint(i + 5, 2, 2))  # touches x at an index spelled differently
+        if not x.overlaps(y) or not y.overlaps(x) or (x < y) or (x + y).start.index != i or (x + y).end.index != i + 5:
+            bad("overlaps", "ranges touching at one index (spelled with another line/column) do not overlap / merge", x=(i, i + 3), y=(i + 3, i + 5))
     # ill-formed
     for idx, line, col in itertools.product([-1, 0, 3], [-1, 0, 1, 2], [-1, 0, 2]):
         ctx.evaluations += 1
